@@ -68,11 +68,20 @@ func c08Case(g *Gen, code string, targets []*big.Int) {
 	} else if err == nil {
 		out = encInts(c)
 	}
+	// neither the integers nor the contents of the caller's slice may change (contfrac sorts the
+	// slice in place, which keeps the multiset of values)
 	unch := true
 	for i := range ptrs {
 		if ptrs[i].Cmp(vals[i]) != 0 {
 			unch = false
 		}
+	}
+	after := cloneInts(targets)
+	sortInts(after)
+	sortedBefore := cloneInts(vals)
+	sortInts(sortedBefore)
+	if !equalInts(after, sortedBefore) {
+		unch = false
 	}
 	g.Line("c08", code, encInts(in), out, b01(unch))
 	g.Count(code)
